@@ -89,6 +89,11 @@ CHECKS = {
     text="Exploration: ~900 structured commands covering all 33 formula sub-commands with their option subsets, numeric grids, deterministic and random graph constructions, through cnfgen (formula_class=CNF) and pbgen (formula_class=OPB); -T chains of length 1-3 on deterministic bases (exact under RNG replay); graph files of every type/format given by extension and explicitly; dimacs sub-command; kthlist2pebbling vs 'peb'; -q/-v/--varnames/-o/-of on three tools.  Names equal as lists, clauses/constraints as multisets, formula class as documented.",
     note="Saved files are read with vmon/refmodels/c15_ref.py.  Random ingredients (php M N D, subsetcard N d, op N d, tseitin N d / random charges, --sparse, --plant) are reconstructed from the formula and judged by what the option promises.",
     design="5/C17"),
+ "C18": dict(
+    technique="runtime monitoring: grammar-generated and k-edit-mutated command lines through the real main() of the four tools in-process, with taps on the parse phase and the escaping exception; outcome classifier backed by strict DIMACS/OPB/LaTeX readers; violations re-confirmed in real processes",
+    text="Exploration: ~7.5k (quick) / ~75k (thorough) command lines per run: the live argparse tables (33 formula + 18 transformation sub-commands) instantiated with boundary pools (-1, 0, 1, 2, 3, 12, 1.5, x, empty string, 30-digit numbers), mutilated graph specifications, every scratch-file kind x slot (missing, directory, empty, binary, truncated, wrong format), -o into a missing directory, every help switch in every position, missing/surplus arguments, unknown options, broken -T chains, 1-3-edit mutants of valid command lines, cnfshuffle / kthlist2pebbling with hostile stdin and -i/-o.  Each run is classified SUCCESS (strict reader accepts the output, counts match) / HELP / CLI-ERROR (non-zero exit, no formula line anywhere, every stderr line behind the comment marker of the phase) / violation.",
+    note="A violation is reported only after a real process reproduced its outcome class (a disagreement indicts the harness: inconclusive).  Commands that trip the CPU watchdog or the address-space limit are counted, not judged.  For parse-phase failures the tool's default marker is accepted (DESIGN 4.7).",
+    design="5/C18"),
  "C19": dict(
     technique="runtime monitoring: icontract snapshot/ensure contracts on every monitored call (arguments deep-compared before/after), aliasing probes on results, header provenance checks",
     text="Exploration: 17 transformations (incl. Shuffle with explicit lists, compression with a graph) on 7 base formulas, all single steps and sampled chains up to length 4; every graph-taking family with cnfgen and networkx graphs under both classes; list-taking APIs (charges, shift patterns, planted assignments, builders incl. '!=', Shuffle arguments) and refused calls (arguments must be intact after the exception too).  Result != input object, input state unchanged, mutation of the result does not show in the input, header keeps description and entries and gains 'transformation 1..t' in order.",
